@@ -231,6 +231,10 @@ func limitProgram(kind string, d int, reps int, inCo bool, catch string) string 
 	case "args-table":
 		fmt.Fprintf(&sb, "local big = {}\nfor i = 1, %d do big[i] = i end\n", d)
 		sb.WriteString("local function body() local t = {unpack(big)} return #t end\n")
+	case "wrap-args":
+		// the values go through the wrap function's Insert / XMoveTo into a fresh coroutine
+		fmt.Fprintf(&sb, "local big = {}\nfor i = 1, %d do big[i] = i end\n", d)
+		sb.WriteString("local function body() return coroutine.wrap(function(...) return select('#', ...) end)(unpack(big)) end\n")
 	case "resume-args":
 		// the values given to resume do not fit into the suspended coroutine's registry
 		fmt.Fprintf(&sb, "local big = {}\nfor i = 1, %d do big[i] = i end\n", d)
@@ -318,9 +322,10 @@ func runLimit(src string, opts lua.Options) *limitRun {
 
 func runLimits(c *fw.Ctx, idx int, count bool) {
 	r := c.SubRand("limit", idx)
-	kind := []string{"depth", "depth", "depth-meta", "args-unpack", "args-table", "args-unpack", "resume-args"}[r.Intn(7)]
+	kind := []string{"depth", "depth", "depth-meta", "args-unpack", "args-table", "args-unpack", "resume-args", "wrap-args", "args-unpack"}[r.Intn(9)]
 	var opts lua.Options
 	var lo, hi int
+	firstGrowth := false
 	inCo := r.Intn(4) == 0
 	catch := []string{"pcall", "pcall", "xpcall", "co-resume"}[r.Intn(4)]
 	reps := 100
@@ -345,6 +350,13 @@ func runLimits(c *fw.Ctx, idx int, count bool) {
 			lo, hi = opts.RegistryMaxSize-40, opts.RegistryMaxSize+12
 		}
 		reps = 20
+		if opts.RegistryMaxSize > rs && kind != "resume-args" && r.Intn(2) == 0 {
+			// a growable registry: sweep across the point where it grows for the
+			// first time, far below its limit (every size must simply work; the
+			// call lands exactly at the old capacity for one of them)
+			lo, hi = rs-60, rs+12
+			firstGrowth = true
+		}
 		if kind == "resume-args" {
 			// the resumer holds the same values in its own (almost empty) registry:
 			// stay well below its limit; the suspended coroutine has ~70 slots in use
@@ -353,6 +365,9 @@ func runLimits(c *fw.Ctx, idx int, count bool) {
 	}
 	if lo < 1 {
 		lo = 1
+	}
+	if firstGrowth && count {
+		c.Count("limit_windows_across_first_registry_growth", 1)
 	}
 	desc := fmt.Sprintf("%s caught-by=%s inCoroutine=%v CallStackSize=%d Minimize=%v RegistrySize=%d RegistryMaxSize=%d GrowStep=%d", kind, catch, inCo, opts.CallStackSize, opts.MinimizeStackMemory, opts.RegistrySize, opts.RegistryMaxSize, opts.RegistryGrowStep)
 	var battery string
